@@ -8,6 +8,7 @@ from props.deccommon import check_ast
 from ref import decmodel
 
 DEF_NAMES = ["dm", "dm2", "xdm"]          # prefixes / suffixes of each other
+DEF_NAME_SETS = [["dm", "dm2", "xdm"], ["g_H-", "g_H", "w(K*-)-"], ["a-b", "a", "b+"], ["x~", "x/y", "x.y'"]]
 DEF_VALUES = ["0.507e12", "-1.5", "2"]
 REDEF_VALUES = ["7.25", "-0.125"]
 ALIAS_NAMES = ["MA", "MA2", "XMA"]
@@ -17,19 +18,46 @@ PLACES = ["before", "between", "after"]
 
 
 def gen(c):
+    names = DEF_NAME_SETS[c.choose("define_names", [0, 1, 2, 3])]
+    ast = _gen(c)
+    if names is DEF_NAME_SETS[0]:
+        return ast
+    ren = dict(zip(DEF_NAME_SETS[0], names))
+
+    def rw(w):
+        if w in ren:
+            return ren[w]
+        if w.startswith("-") and w[1:] in ren:
+            return "-" + ren[w[1:]]
+        return w
+
+    out = []
+    for st in ast:
+        if st[0] == "Define":
+            out.append(["Define", rw(st[1]), st[2]])
+        elif st[0] == "ModelAlias":
+            out.append(["ModelAlias", st[1], st[2], [rw(w) for w in st[3]] if st[3] else st[3]])
+        elif st[0] == "Decay":
+            out.append(["Decay", st[1], [[bf, [rw(d) for d in ds], ph, m, [rw(w) for w in ps] if ps else ps] for bf, ds, ph, m, ps in st[2]]])
+        else:
+            out.append(st)
+    return out
+
+
+def _gen(c):
     n_def = c.choose("n_def", [1, 0, 2, 3])
     n_alias = c.choose("n_alias", [1, 0, 2, 3])
     n_blocks = c.choose("n_blocks", [1, 2, 3])
     defs = []
     for i in range(n_def):
         defs.append((DEF_NAMES[i], DEF_VALUES[i], c.choose(f"def_place{i}", PLACES)))
-    redef = c.choose("redefine", [0, 1, 2]) if n_def else 0
+    redef = c.choose("redefine", [0, 1, 2, 3]) if n_def else 0   # 3: a new value, then the original value again
     redef_place = c.choose("redef_place", ["after", "between", "before"]) if redef else None
     aliases = []
     for i in range(n_alias):
         pk = c.choose(f"alias_params{i}", list(range(len(ALIAS_PARAMS))))
         aliases.append((ALIAS_NAMES[i], ALIAS_MODELS[i], ALIAS_PARAMS[pk], c.choose(f"alias_place{i}", PLACES)))
-    alias_redef = c.flag("alias_redefine") if n_alias else False
+    alias_redef = c.choose("alias_redefine", [0, 1, 2]) if n_alias else 0   # 2: redefined, then the original statement again
     neg = c.choose("negated_use", [0, 1, 2, 3])
     as_daughter = c.flag("define_name_as_daughter")
     undefined = c.flag("undefined_word")
@@ -64,10 +92,15 @@ def gen(c):
         where[place].append(["Define", name, val])
     for name, model, params, place in aliases:
         where[place].append(["ModelAlias", name, model, params])
-    for r in range(redef):
-        where[redef_place].append(["Define", DEF_NAMES[0], REDEF_VALUES[r]])
+    if redef == 3:
+        where[redef_place] += [["Define", DEF_NAMES[0], REDEF_VALUES[0]], ["Define", DEF_NAMES[0], DEF_VALUES[0]]]
+    else:
+        for r in range(redef):
+            where[redef_place].append(["Define", DEF_NAMES[0], REDEF_VALUES[r]])
     if alias_redef:
         post.append(["ModelAlias", ALIAS_NAMES[0], "SVP_HELAMP", ["9.5", "dm"]])
+    if alias_redef == 2:
+        post.append(["ModelAlias", aliases[0][0], aliases[0][1], aliases[0][2]])
     ast = list(pre)
     for i, blk in enumerate(blocks):
         ast.append(blk)
